@@ -195,11 +195,15 @@ def make_op(rng, tag, tfiles):
                     ['negra_mark_heads', 'binarize', 'add_topnode'],
                     ['root_attach', 'negra_mark_heads', 'boyd_split',
                      'raising'], ['collapse_unary_chains'], []]
+            names = rng.choice(seqs)
+            dfmt = 'brackets' if fmt == 'brackets' \
+                else rng.choice(['export', 'discobrackets'])
+            if names[-1:] == ['raising'] and rng.random() < 0.6:
+                # made continuous: the bracket writer has to take them
+                dfmt = 'brackets'
             return {'k': 'pipeline', 'a': part(fmt, rng.randint(2, 5)),
                     'b': part(None, rng.randint(1, 2)),
-                    'names': rng.choice(seqs),
-                    'dfmt': 'brackets' if fmt == 'brackets'
-                    else rng.choice(['export', 'discobrackets'])}
+                    'names': names, 'dfmt': dfmt}
         if rng.random() < 0.25:
             # two gzip-compressed inputs with the same base name in different
             # directories, the first one longer than any read buffer
@@ -311,10 +315,19 @@ def make_op(rng, tag, tfiles):
                            'terminals'])
         argv = ['transform', '{src}', '{dest}', '--src-format', sfmt,
                 '--dest-format', dfmt, '--src-opts', 'quiet']
-        if rng.random() < 0.5:
+        r = rng.random()
+        if r < 0.4:
             argv += ['--trans', 'negra_mark_heads', 'binarize']
-        if rng.random() < 0.3:
+        elif r < 0.6:
+            # options that carry values
+            argv += ['--trans', 'filter_by_length', '--params',
+                     'filteroperator:%s' % rng.choice(['gt', 'lt']),
+                     'filtervalue:%d' % rng.randint(2, 5)]
+        r = rng.random()
+        if r < 0.3:
             argv += ['--dest-opts', 'brackets_emptyroot']
+        elif r < 0.5:
+            argv += ['--dest-opts', 'gf', 'gf_separator:=']
         if rng.random() < 0.2:
             argv += ['--split', '50%_rest']
         return {'k': 'cli', 'argv': argv, 'sfmt': sfmt, 'text': text,
@@ -474,6 +487,16 @@ def run_session(ctx, si, rng):
         else:
             outputs[pi] = out
         positions.setdefault(pi, []).append(pos)
+        # the command run a second time with the same parsed arguments
+        if op['k'] == 'cli' and out[:1] != ['EXCEPTION']:
+            twice = norm(c18_ops.execute(R, dict(copy.deepcopy(op),
+                                                 reuse_args=True), tmp,
+                                         set()))
+            ctx.hook('command run twice with one arguments object')
+            if twice != out:
+                ctx.fail('C18:second-run-with-the-same-arguments-differs:'
+                         + op_shape(op), case, 'second run %s | single run %s'
+                         % (str(twice)[:300], str(out)[:300]))
         # a treebank read in between does not change what becomes of this one
         if op['k'] == 'pipeline':
             alone = norm(c18_ops.execute(R, dict(copy.deepcopy(op), b=None),
